@@ -303,10 +303,12 @@ Definition oevent (ev : event) : obs :=
   | EUser t v => OL [OI 4; OI t; oval v]
   end.
 
+(* a caller cannot tell a raised StopIteration(v) from "returned v" *)
 Definition ooutcome (o : outcome) : obs :=
   match o with
   | OYield y => OL [OI 0; oval y]
   | OReturn v => OL [OI 1; oval v]
+  | ORaise (StopIteration v) => OL [OI 1; oval v]
   | ORaise e => OL [OI 2; oexn e]
   end.
 
